@@ -451,3 +451,21 @@ pub broadcast proof fn axiom_range_is_empty_usize(r: Range<usize>)
     ensures #[trigger] spec_range_is_empty(r) == !(r.start < r.end),
 {}
 } // verus!
+verus! {
+// ------------------------------------------------------------------ str::char_indices (assumed std contract)
+#[verifier::external_type_specification]
+#[verifier::external_body]
+pub struct ExCharIndices<'a>(std::str::CharIndices<'a>);
+
+/// byte offset of the i-th character
+pub open spec fn char_byte_pos(c: Seq<char>, i: int) -> int { encode_utf8(c.take(i)).len() as int }
+pub open spec fn char_index_seq(c: Seq<char>) -> Seq<(usize, char)> {
+    Seq::new(c.len(), |i: int| (char_byte_pos(c, i) as usize, c[i]))
+}
+pub assume_specification<'a> [str::char_indices] (s: &'a str) -> (r: std::str::CharIndices<'a>)
+    ensures
+        IteratorSpec::remaining(&r) == char_index_seq(s@),
+        IteratorSpec::obeys_prophetic_iter_laws(&r),
+        IteratorSpec::decrease(&r) is Some,
+;
+} // verus!
